@@ -493,12 +493,12 @@ def run(tier, seed, build=True):
             lines, exps = [], []
             for k in range(nl):
                 t = (2024, 3, 5, 10, k // 60, k % 60, 0)
-                stamp, _why = instantiate(lex, lgroups, t, 330, None)
+                stamp, _why = instantiate(lex, lgroups, t, 300, None)      # +05:00: also expressible by notations that write whole hours only
                 if stamp is None:
                     return job, None, None, None
                 stamp = stamp[: lex["end"] + (len(stamp) - len(lex["line"].encode("utf-8")))] if False else stamp
                 lines.append(stamp)
-                exps.append(epoch_ns(t, 330 * 60))
+                exps.append(epoch_ns(t, 300 * 60))
             # keep only the lead example's timestamp part as the line head
             head_len = None
             out_lines = []
